@@ -252,7 +252,14 @@ def truncate_hs(
     ValueError
         `is_zero_imaginary_part_required` == True and some imaginary parts of entries of matrix != 0.
     """
-    tmp_hs = truncate_imaginary_part(hs, eps=eps_truncate_imaginary_part)
+    # the imaginary rounding noise of a computed matrix is proportional to its magnitude,
+    # so the threshold of the imaginary part is relative for matrices above unit scale.
+    eps_imaginary_part = (
+        Settings.get_atol()
+        if eps_truncate_imaginary_part is None
+        else eps_truncate_imaginary_part
+    ) * max(1.0, float(np.max(np.abs(hs), initial=0.0)))
+    tmp_hs = truncate_imaginary_part(hs, eps=eps_imaginary_part)
 
     if is_zero_imaginary_part_required == True and np.any(tmp_hs.imag != 0):
         raise ValueError(
@@ -266,28 +273,6 @@ def truncate_hs(
         tmp_hs, eps_truncate_imaginary_part
     )
     return truncated_hs
-
-
-def calc_eps_truncate_for_spectrum(eigenvals: np.ndarray, eps: float = None) -> float:
-    """returns the truncation threshold for a Hermitian matrix rebuilt from an eigendecomposition.
-
-    The rounding noise of ``eigenvecs @ diag @ eigenvecs^dagger`` is proportional to the largest
-    eigenvalue, so the (absolute) threshold ``eps`` is scaled by ``max(1, max|eigenvals|)``.
-
-    Parameters
-    ----------
-    eigenvals : np.ndarray
-        eigenvalues of the matrix.
-    eps : float, optional
-        threshold for a matrix of unit scale, by default :func:`~quara.settings.Settings.get_atol`
-
-    Returns
-    -------
-    float
-        threshold scaled to the magnitude of the matrix.
-    """
-    eps = Settings.get_atol() if eps is None else eps
-    return eps * max(1.0, float(np.max(np.abs(eigenvals))))
 
 
 def truncate_and_normalize(matrix: np.ndarray, eps: float = None) -> np.array:
